@@ -6,17 +6,20 @@ from cgsim.core import fp, Skip, state_digest
 ID = "C18"
 QUICK = dict(worlds=16, runs=800, seconds=25)
 THOROUGH = dict(worlds=256, runs=3000, seconds=30)
-RULE = ("seeded cyclic blackbox-free circuits (1-3 feedback edges, no self-loops, <= 3 inputs, <= 11 nodes); distinct = "
+RULE = ("seeded cyclic blackbox-free circuits (1-3 feedback edges, no self-loops, <= 3 inputs, <= 16 nodes, up to 7 feedback edges); distinct = "
         "canonical net; non-trivial = the circuit has at least one stable state and one output inside or behind a cycle")
 PROBES = ["feedback_nodes>=2", "input_with_0_stable", "input_with_2+_stable", "two_sccs", "input_is_output"]
-ASSUMPTIONS = ["<= 3 inputs, <= 11 nodes (all 2^n node valuations are enumerated bit-parallel)"]
+ASSUMPTIONS = ["<= 3 inputs, <= 16 nodes (all 2^n node valuations are enumerated bit-parallel)"]
 
 
 def gen(rng, tier):
     net = None
     for _ in range(6):
-        net = G.gen_net(rng, n_inputs=(1, 3), n_gates=(2, 8), types=G.swarm_types(rng), max_arity=rng.randint(2, 3),
-                        constants=0.15, cyclic=True, name_style=rng.choice(("plain", "plain", "underscore")),
+        big = rng.random() < 0.4
+        net = G.gen_net(rng, n_inputs=(1, 2) if big else (1, 3), n_gates=(8, 13) if big else (2, 8),
+                        types=G.swarm_types(rng), max_arity=rng.randint(2, 4) if big else rng.randint(2, 3),
+                        constants=0.15, cyclic=(3, 7) if big else True,
+                        name_style=rng.choice(("plain", "plain", "underscore")),
                         input_outputs=rng.choice((0.0, 0.2)), min_outputs=1)
         if ref.is_cyclic(net):
             break
@@ -69,7 +72,7 @@ def run(case, ctx):
         raise Skip("precondition (needs a cyclic lint-clean circuit)")
     if any(n in fi for n, (t, fi, o) in nodes.items()):
         raise Skip("self-loop")
-    if len(nodes) > 12 or len(ref.inputs(net)) > 4:
+    if len(nodes) > 16 or len(ref.inputs(net)) > 4:
         raise Skip("bounds")
     comps = sccs(net)
     if len(comps) >= 2:
@@ -116,7 +119,7 @@ def run(case, ctx):
     if sorted(ref.free_nodes(rs)) != sorted(rin):
         ctx.violate("C18.free", f"free signals {sorted(ref.free_nodes(rs))} != inputs {sorted(rin)}", sig)
     free = sorted(rin)
-    if len(free) > 12:
+    if len(free) > 14:
         raise Skip("too many auxiliary inputs for the oracle")
     tr, _, _ = ref.truth_tables(rs, free)
     mask, order, full = ref.consistency_mask(net)
